@@ -27,6 +27,7 @@ def checks():
         "C17": fam_relmod.check_c17,
         "C16": fam_db.check_c16,
         "C19": fam_det.check_c19,
+        "C07": fam_det.check_c07,
     }
     for mod, names in OPTIONAL:
         try:
